@@ -173,6 +173,19 @@ def check_indexed(ck, X, F, tier, tag, lister, getter, macros, prefix):
             ck.violation('c15:%s:unknown-name-accepted' % tag, 'lookup by name %r returned an entry' % (nm,), dict(name=nm, returned_name=r.get('name')))
         else:
             F.ok(tag + ':unknown-name-refused')
+    # near misses of EVERY listed name: the name with something appended / prepended / its last character missing is not in the list
+    # (unless that string happens to be another listed name), so it does not resolve
+    nameset = set(names)
+    for nm in names:
+        for v in (nm + 'x', nm + ' ', nm + ' (2)', nm + nm[-1:], ' ' + nm, nm[:-1], nm + '\x01' + 'y' * 40):
+            if v in nameset or not v:
+                continue
+            r = getter(v)
+            if not is_err(r):
+                ck.violation('c15:%s:near-miss-of-a-listed-name-accepted' % tag, 'lookup by %r (not in the list; near miss of the listed %r) returned the entry %r' % (v, nm, r.get('name')),
+                             dict(name=v, listed=nm, returned_name=r.get('name')))
+            else:
+                F.ok(tag + ':near-miss-refused')
     # published index macros
     red = {}
     for i, nm in enumerate(names):
@@ -288,6 +301,7 @@ def check_crystals(ck, X, F, tier, st):
             ck.violation('c15:crystal:duplicate-name', 'crystal name %r appears at list positions %d and %d' % (nm, seen[nm], i), dict(name=nm))
         seen.setdefault(nm, i)
     F.ok('crystal:names-unique', len(names))
+    builtin_dict = {}
     data_ok = {}
     def has_data(Z):
         if Z not in data_ok:
@@ -300,6 +314,7 @@ def check_crystals(ck, X, F, tier, st):
         if is_err(g):
             ck.violation('c15:crystal:listed-name-not-found', 'Crystal_GetCrystal(%r) failed: %r' % (nm, g), dict(name=nm)); continue
         p, d = g
+        builtin_dict[nm] = d
         e = C.POINTER(xl.XrlError)()
         q = X.lib.Crystal_MakeCopy(p, C.byref(e)); X.calls += 1
         err = X._err(e)
@@ -328,7 +343,8 @@ def check_crystals(ck, X, F, tier, st):
                              dict(name=nm, atom=k, Z=Z, occupancy=occ)); good = False
         if good:
             F.ok('crystal:entry-invariants', 2 * len(d['atoms']))
-    for nm in [None, '', 'no such crystal', names[0] + '\x01' if names else 'x', names[0].swapcase() if names else 'y']:
+    near = [v for nm in names for v in (nm + 'x', nm + ' ', ' ' + nm, nm[:-1], nm + nm[-1:], nm + '\x01' + 'y' * 30)]
+    for nm in [None, '', 'no such crystal', names[0] + '\x01' if names else 'x', names[0].swapcase() if names else 'y'] + near:
         if nm in seen:
             continue
         g = X.get_crystal(nm)
@@ -342,6 +358,33 @@ def check_crystals(ck, X, F, tier, st):
         if not is_err(g):
             X.free_crystal(g[0])
             F.samples.append(dict(fact='crystal entry', name=g[1]['name'], atoms=g[1]['atoms'][:2], n_atom=len(g[1]['atoms'])))
+    # explicit additions to the built-in collection (this function runs in a child process): wherever the new name sorts - before the
+    # first entry, in the middle, behind the last - every catalogue crystal stays addressable by name, unchanged, and the list sorted
+    have = list(names)
+    for new in ('0_XvFirst', 'AAAA', names[len(names) // 2] + '_Xv' if names else 'M', 'zzzz_XvLast', 'A'):
+        if new in have or not builtin_dict:
+            continue
+        _step(ck, 'crystal: Crystal_AddCrystal(%r) to the built-in collection, then re-read the catalogue' % new)
+        cs = X.make_crystal(new, [4.0, 5.0, 6.0, 80.0, 95.0, 100.0], [(14, 1.0, 0.0, 0.0, 0.0), (8, 0.5, 0.25, 0.5, 0.75)])
+        rc = X.lib.Crystal_AddCrystal(C.byref(cs), None, None); X.calls += 1
+        if rc != 1:
+            ck.violation('c15:crystal:addition-refused', 'Crystal_AddCrystal(%r) on the built-in collection returned %r' % (new, rc), dict(name=new)); continue
+        have.append(new)
+        l2 = X.crystal_list()
+        if is_err(l2) or sorted(l2['names'], key=lambda x: x.encode()) != sorted(have, key=lambda x: x.encode()):
+            ck.violation('c15:crystal:list-wrong-after-addition', 'after adding %r the list does not hold exactly the catalogue plus the additions' % new,
+                         dict(added=new, listed=None if is_err(l2) else l2['names'][:60]))
+        elif l2['names'] != sorted(have, key=lambda x: x.encode()):
+            ck.violation('c15:crystal:list-unsorted-after-addition', 'after adding %r the list is no longer in strcmp order' % new, dict(added=new, listed=l2['names'][:60]))
+        for nm in names:
+            g = X.get_crystal(nm)
+            if is_err(g):
+                ck.violation('c15:crystal:catalogue-entry-lost-after-addition', 'after adding %r, Crystal_GetCrystal(%r) fails: %r' % (new, nm, g), dict(added=new, name=nm)); continue
+            X.free_crystal(g[0])
+            if g[1] != builtin_dict.get(nm, g[1]):
+                ck.violation('c15:crystal:catalogue-entry-changed-after-addition', 'after adding %r the entry %r differs from what it was' % (new, nm), dict(added=new, name=nm))
+            else:
+                F.ok('crystal:entry-intact-after-addition')
     return names
 
 
